@@ -100,6 +100,11 @@ func (s *NotifyFollowReader) Read(buf []byte) (int, error) {
 			verifhook.Point("notify.afterDelete")
 			if s.ReOpen {
 				s.closeFile()
+				// The file may already have been re-created, and the notification for
+				// that may have been consumed while the old file was still open
+				if f, err := os.Open(s.filename); err == nil {
+					s.f = f
+				}
 			} else {
 				s.Close()
 				return 0, io.EOF
